@@ -516,7 +516,9 @@ func (e *Engine) sprintf(st *State, args []Value) (string, bool) {
 			if as.T.Sort == SStr {
 				lit, ok := e.reverseStr(as.T.S)
 				if !ok {
-					return "", false
+					// a symbolic string spliced into the text: kept as a hole
+					sb.WriteString(e.hole(as.T))
+					continue
 				}
 				sb.WriteString(lit)
 				continue
